@@ -15,16 +15,22 @@ def bound_ok(t):
 
 def gen_round(run, exe, acc, rnd, rno, nprobes):
     bounds, probes = {}, {}
+    ZEROS = vlib.accept_filter(run, exe, {e: ["0.0.0", "0.0", "0", "v0.0.0", "0.0.0.0"] for e in ECOS}, name="zeros%d" % rno) if nprobes else {}
     for e in ECOS:
         cand = [t for t in acc[e] if bound_ok(t)]
         if len(cand) < NB:
             raise vlib.Infra("too few admissible bounds for " + e)
         bounds[e] = rnd.sample(cand, NB)
+        # one bound is the ecosystem's zero version (0.0.0 / 0.0 / 0): the lowest release, where "everything matches"
+        # rewrites of >= bounds and pre-releases of zero meet
+        zeros = [z for z in ZEROS.get(e, []) if z not in bounds[e]]
+        if zeros and nprobes:
+            bounds[e][0] = zeros[rno % len(zeros)]
         probes[e] = list(dict.fromkeys(bounds[e] + rnd.sample(acc[e], min(len(acc[e]), nprobes))))
     # neighbours of the bounds at type-width boundaries (65536, 2^31, 2^63, ...): the oracle is still the real Compare
     if nprobes:
         SUF = ["-1", "-0", ".0", "-r1", "+b1", "_p1", "~rc1", "-alpha", ".post1", "a", "-1.el8", ".dev1", "_rc1", "-SNAPSHOT"]
-        near = vlib.accept_filter(run, exe, {e: [v for b in bounds[e] for v in vlib.boundary_variants(b, rnd, 6) + [b + x for x in rnd.sample(SUF, 5)]]
+        near = vlib.accept_filter(run, exe, {e: [v for b in bounds[e] for v in vlib.boundary_variants(b, rnd, 6) + [b + x for x in (SUF if b in ZEROS.get(e, []) else rnd.sample(SUF, 5))]]
                                              for e in ECOS}, name="near%d" % rno)
         for e in ECOS:
             probes[e] = list(dict.fromkeys(probes[e] + near[e]))
